@@ -33,6 +33,7 @@ from mapproxy.image.opts import ImageOptions
 from mapproxy.image.mask import mask_image_source_from_coverage
 from mapproxy.util.ext.odict import odict
 from mapproxy.util.coverage import load_limited_to_all
+from mapproxy.util.escape import escape_html
 
 import logging
 log = logging.getLogger(__name__)
@@ -184,7 +185,7 @@ class TileServer(Server):
 
     def _service_md(self, map_request):
         md = dict(self.md)
-        md['url'] = map_request.http.base_url
+        md['url'] = escape_html(map_request.http.base_url)
         return md
 
     def _render_template(self, layers, service):
